@@ -155,6 +155,10 @@ pub struct SimCtx {
     max_nest: AtomicUsize,
     sites: [AtomicU64; 8],
     steps: AtomicU64,
+    /// offset of the last grammar terminal tried: identifies which directive a keyword-stack event belongs to
+    last_ws_offset: AtomicUsize,
+    /// (site, offset of the directive's last terminal, version-stack depth before the event)
+    kw_events: std::sync::Mutex<Vec<(u32, usize, usize)>>,
 }
 
 impl SimCtx {
@@ -170,6 +174,8 @@ impl SimCtx {
             max_nest: AtomicUsize::new(0),
             sites: Default::default(),
             steps: AtomicU64::new(0),
+            last_ws_offset: AtomicUsize::new(0),
+            kw_events: std::sync::Mutex::new(vec![]),
         })
     }
 
@@ -182,6 +188,12 @@ impl SimCtx {
 
     fn do_step(&self, site: u32) {
         self.steps.fetch_add(1, Ordering::Relaxed);
+        if site == verif::SITE_KW_BEGIN || site == verif::SITE_KW_END || site == verif::SITE_KW_BEGIN_DIRECTIVE || site == verif::SITE_KW_CLEAR {
+            let (_, v) = verif::residue();
+            if let Ok(mut ev) = self.kw_events.lock() {
+                ev.push((site, self.last_ws_offset.load(Ordering::Relaxed), v));
+            }
+        }
         if (site as usize) < 8 {
             self.sites[site as usize].fetch_add(1, Ordering::Relaxed);
         }
@@ -217,6 +229,10 @@ impl io::Read for YieldingReader {
 
 impl Sim for SimCtx {
     fn step(&self, site: u32) {
+        self.do_step(site)
+    }
+    fn step_at(&self, site: u32, offset: usize) {
+        self.last_ws_offset.store(offset, Ordering::Relaxed);
         self.do_step(site)
     }
     fn fs_open(&self, path: &Path) -> io::Result<Box<dyn io::Read>> {
@@ -300,6 +316,12 @@ pub struct CallOutcome {
     pub sites: [u64; 8],
     /// what exercising the Ok tree found (C08), empty if fine
     pub exercise_fail: Option<String>,
+    /// keyword-version pushes / pops executed again for a directive (same text offset) that had already
+    /// executed one, counting a pop only if it removed an entry: replayed side effects that mattered
+    #[serde(default)]
+    pub kw_replayed_pushes: u64,
+    #[serde(default)]
+    pub kw_replayed_effective_pops: u64,
 }
 
 impl CallOutcome {
@@ -576,6 +598,9 @@ fn run_call(ctx: &Arc<SimCtx>, tid: usize, index: usize, call: &Call, opts: &Exe
         s.set_in_call(tid, true);
     }
     LAST_PANIC.with(|p| *p.borrow_mut() = None);
+    if let Ok(mut ev) = ctx.kw_events.lock() {
+        ev.clear();
+    }
     let mut text_addr = 0usize;
     let mut exercise_fail = None;
     let r = catch_unwind(AssertUnwindSafe(|| {
@@ -601,7 +626,42 @@ fn run_call(ctx: &Arc<SimCtx>, tid: usize, index: usize, call: &Call, opts: &Exe
     for i in 0..8 {
         sites[i] = ctx.sites[i].load(Ordering::Relaxed) - sites0[i];
     }
+    let (mut rp, mut rq) = (0u64, 0u64);
+    if let Ok(ev) = ctx.kw_events.lock() {
+        // a shadow of the version stack tells region pushes from the balanced pushes of macro-name lexing;
+        // a region event is "replayed" when the same directive (same text offset) already executed one
+        let mut shadow: Vec<bool> = vec![]; // true = `begin_keywords region entry
+        let mut seen_push: std::collections::HashSet<usize> = Default::default();
+        let mut seen_pop: std::collections::HashSet<usize> = Default::default();
+        for (site, off, _depth) in ev.iter() {
+            if *site == verif::SITE_KW_CLEAR {
+                shadow.clear();
+            } else if *site == verif::SITE_KW_BEGIN_DIRECTIVE {
+                shadow.push(false);
+            } else if *site == verif::SITE_KW_BEGIN {
+                shadow.push(true);
+                if !seen_push.insert(*off) {
+                    rp += 1;
+                }
+            } else {
+                // a pop: of what?
+                match shadow.pop() {
+                    Some(false) => {}
+                    Some(true) => {
+                        if !seen_pop.insert(*off) {
+                            rq += 1;
+                        }
+                    }
+                    None => {
+                        seen_pop.insert(*off);
+                    }
+                }
+            }
+        }
+    }
     CallOutcome {
+        kw_replayed_pushes: rp,
+        kw_replayed_effective_pops: rq,
         thread: tid,
         index,
         digest,
